@@ -35,13 +35,19 @@ FLAGSETS = [('Running', 'Valid'), ('Guard', 'Running', 'Valid'), ('Authority', '
 A_VARIANTS = [(), ('[2001:db8::1]:9001',), ('[2001:db8::1]:9001', '[2001:db8::2]:443')]
 
 
-def relay(n, flags=0, a=0, w=True, p=True, renamed=False, moved=False):
+def relay(n, flags=0, a=0, w=True, p=True, renamed=False, moved=False, reported=False):
     nick, ip = POOL[n]
     if renamed:
         nick = 'alpha' if n != 11 else 'zulu'
     if moved:
         ip = ip.replace('10.0.0.', '10.9.9.')
-    return C.Relay(n, nick, ip, 9001 + (1 if moved else 0), 9030 if n % 2 else 0, A_VARIANTS[a], FLAGSETS[flags],
+    orport = 9001 + (1 if moved else 0)
+    dirport = 9030 if n % 2 else 0
+    if reported:
+        # same address, other ports (the relay was reconfigured: ORPort moved, DirPort switched on or off)
+        orport += 442
+        dirport = 0 if dirport else 9030
+    return C.Relay(n, nick, ip, orport, dirport, A_VARIANTS[a], FLAGSETS[flags],
                    (1000 * n) if w else None, 'accept 80,443' if p else None)
 
 
@@ -92,6 +98,9 @@ def changes(doc):
             d = dict(doc)
             d[n] = dict(v, moved=not v.get('moved', False))
             out.append(('move-%d' % n, d))
+            d = dict(doc)
+            d[n] = dict(v, reported=not v.get('reported', False))
+            out.append(('report-%d' % n, d))
     return out
 
 
